@@ -348,18 +348,47 @@ fn bucket_of(local: &[u8; 32], key: &[u8; 32]) -> Option<usize> {
 }
 
 impl TableModel {
+    /// How many entries one k-bucket of the real table takes (20 in the pinned tree; the property does not name the
+    /// number): connected peers of one bucket are added until the bucket stops growing.
+    pub fn bucket_capacity() -> usize {
+        static CAP: std::sync::OnceLock<usize> = std::sync::OnceLock::new();
+        *CAP.get_or_init(|| {
+            let local = util::peer(1);
+            let lraw = Key::from(local).verif_raw();
+            let mut table = RoutingTable::new(Key::from(local));
+            let (mut seed, mut stored, mut stalled) = (10_000u64, 0usize, 0);
+            while stalled < 8 && stored < 4096 {
+                let p = util::peer(seed);
+                seed += 1;
+                if bucket_of(&lraw, &Key::from(p).verif_raw()) != Some(255) {
+                    continue;
+                }
+                table.add_known_peer(p, vec![addr_for(seed, 0)], Conn::Connected.to());
+                let now = table.verif_dump().into_iter().filter(|(b, _)| *b == 255).count();
+                if now > stored {
+                    stored = now;
+                    stalled = 0;
+                } else {
+                    stalled += 1;
+                }
+            }
+            stored
+        })
+    }
+
     pub fn new(prefill: usize, pattern: &str) -> Self {
+        let cap = Self::bucket_capacity();
         let local = util::peer(1);
         let lraw = Key::from(local).verif_raw();
         let mut hot = Vec::new();
         let mut other = None;
         let mut seed = 10_000u64;
-        while hot.len() < 22 || other.is_none() {
+        while hot.len() < cap + 2 || other.is_none() {
             let p = util::peer(seed);
             seed += 1;
             let raw = Key::from(p).verif_raw();
             match bucket_of(&lraw, &raw) {
-                Some(255) if hot.len() < 22 => hot.push(p),
+                Some(255) if hot.len() < cap + 2 => hot.push(p),
                 Some(254) if other.is_none() => other = Some(p),
                 _ => {}
             }
@@ -448,7 +477,7 @@ impl TableModel {
             }
         }
         for (b, n) in per_bucket {
-            if n > 20 {
+            if n > TableModel::bucket_capacity() {
                 return Err(Viol::new("table/bucket-over-capacity", format!("bucket {b} holds {n} entries")));
             }
         }
@@ -493,7 +522,8 @@ impl Model for TableModel {
         // subjects: local (0), first prefilled (1), last prefilled, two peers not prefilled (21, 22 in pool → same
         // bucket), one peer of another bucket (23)
         let last = self.prefill.max(1);
-        let mut subjects = vec![0usize, 1, last, 21, 22, 23];
+        let cap = TableModel::bucket_capacity();
+        let mut subjects = vec![0usize, 1, last, cap + 1, cap + 2, cap + 3];
         subjects.dedup();
         let mut v = Vec::new();
         for &p in &subjects {
@@ -526,9 +556,10 @@ impl Model for TableModel {
                     sys.told.insert(peer, conn);
                 }
                 // must be inserted when its bucket has room (basic function), local never
-                let in_hot = (1..=22).contains(&peer);
+                let cap = TableModel::bucket_capacity();
+                let in_hot = (1..=cap + 2).contains(&peer);
                 if with_addr && peer != 0 && !present_before.contains(&peer) {
-                    let room = if in_hot { hot_count_before < 20 } else { true };
+                    let room = if in_hot { hot_count_before < cap } else { true };
                     if room && !present.contains(&peer) {
                         return Err(Viol::new(
                             "table/add-with-room-dropped",
@@ -637,13 +668,15 @@ pub fn run(ctx: &mut Ctx) {
     closest_sweep(ctx);
     closest_real_keys(ctx);
     let ex = Explorer { max_depth: ctx.tier.pick(3, 4), max_states: 3_000_000, ..Default::default() };
+    let cap = TableModel::bucket_capacity();
+    ctx.cov("bucket_capacity_probed", cap as u64);
     let roots: Vec<(usize, &str)> = vec![
-        (20, "all-connected"),
-        (20, "all-not-connected"),
-        (20, "all-can-connect"),
-        (20, "first-not-connected"),
-        (20, "last-cannot-connect"),
-        (19, "all-connected"),
+        (cap, "all-connected"),
+        (cap, "all-not-connected"),
+        (cap, "all-can-connect"),
+        (cap, "first-not-connected"),
+        (cap, "last-cannot-connect"),
+        (cap.saturating_sub(1), "all-connected"),
         (0, "empty"),
     ];
     for (prefill, pattern) in roots {
